@@ -72,6 +72,8 @@ class Bounds(object):
     def _atom(self, a, facts):
         if isinstance(a, Fin):
             return self.fin_range(a)
+        if isinstance(a, Opaque) and a.tag in getattr(self.ev, "opaque_bounds", {}):
+            return self.ev.opaque_bounds[a.tag]
         if isinstance(a, Const):
             if is_num(a.v):
                 return (qof(a.v), qof(a.v))
